@@ -50,6 +50,14 @@ claim("C05",
       "Not decided here: the nearest-entry search loops themselves, Reed-Solomon correction (see C04), de-interleaving, and the end-to-end statement over placed modules.",
       "tables dumped from the compiled package; math/bits.OnesCount given its defining bitwise specification.")
 
-for p in ["C01","C02","C03","C04","C06","C08","C09","C12","C14","C15","C17","C18","C19"]:
+claim("C19",
+      "Over the reals: SquareToQuadrilateral is proved to send (0,0),(1,0),(0,1) to the given points and to compute the perspective coefficients as the solution of the 2x2 system "
+      "(the (1,1) corner then follows from the polynomial identity corner11, proved separately; the final cancellation by D != 0 is on paper); buildAdjoint is proved to satisfy adj(M).M == det(M).I "
+      "(all nine entries); times is proved to be composition in homogeneous coordinates for all points; TransformPoints is proved pointwise. "
+      "GridSampler_checkAndNudgePoints is proved to write only in-image coordinates, to leave the first and last point inside the image on success, to report only NotFoundException, and to modify nothing else. "
+      "BitMatrix.Get (C16) guarantees that nothing outside the image is read. Not decided: SampleGridWithTransform's per-cell statement, QuadrilateralToQuadrilateral as a whole, and the 1e-6 floating-point error bound.",
+      "float64 treated as real arithmetic (no rounding, no NaN/Inf); float->int conversion is truncation for |x| < 1e9.")
+
+for p in ["C01","C02","C03","C04","C06","C08","C09","C12","C14","C15","C17","C18"]:
     na(p, NOTYET)
 na("C11", "The library has no Aztec writer: 'conforming symbol' would have to be a hand-written restatement of ISO/IEC 24778 (a model, not the code), and the image-to-bits path is a float-geometry detector; no contract on one call of the real code expresses the property. The Aztec decoder's totality is covered under C06.")
